@@ -6,3 +6,7 @@ CONTRACTS = [PolarsCoerceFailureCases]
 from contracts.C08_polars_column_checks import PolarsCheckNullable, PolarsCheckUnique  # noqa: E402  (the row masks of nullability / uniqueness)
 
 CONTRACTS += [PolarsCheckNullable, PolarsCheckUnique]
+
+from contracts.C05_multiindex_validate import MultiIndexCoerceDtype  # noqa: E402  (row labels: the coerced MultiIndex keeps the data's level order)
+
+CONTRACTS += [MultiIndexCoerceDtype]
